@@ -121,14 +121,28 @@ def part_b(ctx):
                 dp = rng.choice([p_ for p_ in (1, 5, 64, 4096) if max(1, outn) // p_ <= (1500 if thorough else 200)] or [4096])
                 scheds.append({"src": str(piece), "dst": str(dp), "dstmode": rng.choice(("grow", "compact")), "srcmode": rng.choice(("view", "fresh"))})
         for sc in scheds:
+            sc = stdinputs.avoid_known(m["dec"], m["input"], sc)
             jid += 1
-            j = {"id": jid, "dec": m["dec"], "in": m["input"], "budget_ms": 60000, "wb": rng.choice(("min", "max"))}
+            j = {"id": jid, "dec": m["dec"], "in": m["input"], "budget_ms": 60000, "wb": rng.choice(("min", "max")), "maxcalls": 6000}
             j.update(m["extra"])
             j.update(sc)
             if "out" in oj:
                 j["oracle"] = oj["out"]
             meta[jid] = {"input": m["input"], "dec": m["dec"], "origin": m["origin"], "class": sc, "oracle_job": oj["id"]}
             sjobs.append(j)
+    # the committed witnesses of the known std findings that concern this property are re-run on every run
+    wit_oracle = {}
+    for (key, fields, opath) in stdinputs.known_witnesses():
+        jid += 1
+        oj = {"id": jid, "dec": fields["dec"], "in": fields["in"], "src": "*", "dst": "*", "budget_ms": 60000, "out": os.path.join(odir, "w%d.bin" % jid)}
+        meta[jid] = {"input": fields["in"], "dec": fields["dec"], "origin": "known-witness", "class": "one-shot"}
+        wev = stdtrace.run_jobs(ctx, exe, [oj], sanitizer=False)
+        oev.update(wev)
+        wj = dict(fields, id=jid + 1, oracle=oj["out"], budget_ms=60000, maxcalls=6000)
+        jid += 1
+        meta[jid] = {"input": fields["in"], "dec": fields["dec"], "origin": "known-witness", "class": {k: v for k, v in fields.items() if k not in ("dec", "in")},
+                     "oracle_job": oj["id"], "witness_key": key}
+        sjobs.append(wj)
     sev = stdtrace.run_jobs(ctx, exe, sjobs, sanitizer=False)
     # 3. traces: insert the oracle's end as the expectation of each scheduled job
     traces = []
@@ -156,7 +170,7 @@ def part_b(ctx):
             os.makedirs(d, exist_ok=True)
             saved = os.path.join(d, "C05-%s-%d-%s" % (ctx.tier, ctx.seed, os.path.basename(m["input"])))
             shutil.copy(m["input"], saved)
-        ctx.violation(what, {"key": "%s:%s:%s" % (m.get("dec"), ",".join(sorted(r["clauses"])), os.path.basename(m.get("input", "?")).split(".")[0]),
+        ctx.violation(what, {"key": m.get("witness_key") or "%s:%s:%s" % (m.get("dec"), ",".join(sorted(r["clauses"])), os.path.basename(m.get("input", "?")).split(".")[0]),
                              "decoder": m.get("dec"), "input_saved": saved, "schedule": m.get("class"), "clauses": r["clauses"], "event": ev,
                              "job": stdtrace.job_line(dict(byid.get(r["job"], {}), **({"in": saved} if saved else {})))})
     distinct = {(meta[j["id"]]["dec"], os.path.basename(meta[j["id"]]["input"]), json.dumps(meta[j["id"]]["class"], sort_keys=True)) for j in sjobs}
